@@ -120,6 +120,7 @@ V_QUERY = {
     "config_param": ("e", "ch_env"),
     "reserved": ["e"],
     "cfg_static": {"windows": False},
+    "opt_eqb": "ch_opt_eqb",
     "type_alias": {"OsStr": OSSTR},
     "enums": {},
     "structs": {"OsString": STRUCT_OS},
@@ -178,6 +179,7 @@ V_AUTO = {
     "structs": {"AtomicChoice": {"coq": "ch_atomic", "var": "a", "fields": {}, "check": False}},
     "consts": {},
     "param_types": {"raw": ("coq", "ch_raw")},
+    "opt_eqb": "ch_opt_eqb",      # `clicolor == Some(true)`: Option<bool> compared with `==`
     "statics": {"USER": ATOMIC},
     "static_use": {"choice": [("USER", "in")], "AutoStream::choice": [("USER", "in")]},
     "fns": {},
